@@ -4,12 +4,22 @@ open MdIt MdIt.Pipeline
 
 #check @escape_roundtrip_doc
 #check @escape_roundtrip_doc_blanks
-#check @Inline.parseInline_escaped
-#check @Inline.tokLoop_escaped
-#check @Block.parseBlocks_one_line
+#check @reference_in_paragraph
+#check @reference_in_fence_info
+#check @Inline.C12.parseInline_escaped
+#check @Inline.C12.tokLoop_escaped
+#check @Inline.C12.parseInline_aRb
+#check @Block.C12.parseBlocks_one_line
+#check @Block.C12.parseBlocks_fence_line
+#check @Entity.Denotes.unescape
 
 #print axioms escape_roundtrip_doc
 #print axioms escape_roundtrip_doc_blanks
-#print axioms Inline.parseInline_escaped
-#print axioms Inline.tokLoop_escaped
-#print axioms Block.parseBlocks_one_line
+#print axioms reference_in_paragraph
+#print axioms reference_in_fence_info
+#print axioms Inline.C12.parseInline_escaped
+#print axioms Inline.C12.tokLoop_escaped
+#print axioms Inline.C12.parseInline_aRb
+#print axioms Block.C12.parseBlocks_one_line
+#print axioms Block.C12.parseBlocks_fence_line
+#print axioms Entity.Denotes.unescape
